@@ -94,14 +94,27 @@ def simplify(repo: Repo, chk: Check) -> None:
                     norm.match(T("$op.iter_params()"), gen.iter, {"op": op}) is not None for gen in sub.generators
                 ):
                     comps.append(sub)
-        if not comps:
-            raise AnalysisError(f"{s.where()}: no comprehension over op.iter_params() feeds the replacement")
+        filters: list[tuple[str, str, list[ast.expr]]] = []  # (name variable, value variable, conditions under which the pair is kept)
         for comp in comps:
             gen = next(gen for gen in comp.generators if norm.match(T("$op.iter_params()"), gen.iter, {"op": op}) is not None)
             if not (isinstance(gen.target, ast.Tuple) and len(gen.target.elts) == 2 and all(isinstance(e, ast.Name) for e in gen.target.elts)):
                 raise AnalysisError(f"{s.where()}: comprehension target over iter_params() is not (name, value)")
             nm, vl = (e.id for e in gen.target.elts)  # type: ignore[union-attr]
-            conds = [a for c in gen.ifs for a in norm.atoms(c, True)]
+            filters.append((nm, vl, [a for c in gen.ifs for a in norm.atoms(c, True)]))
+        if not comps:
+            # the same filter as a loop over op.iter_params() appending the kept names / values to the lists handed to the replacement
+            lists = {a.id for a in call.args[:2] if isinstance(a, ast.Name)}
+            for a_ in [x for x in fl.calls("append") if x.reachable and isinstance(x.node.func.value, ast.Name) and x.node.func.value.id in lists]:
+                lp = [l for l in a_.loops if isinstance(l, ast.For) and norm.match(T("$op.iter_params()"), l.iter, {"op": op}) is not None]
+                if not lp or not (isinstance(lp[-1].target, ast.Tuple) and len(lp[-1].target.elts) == 2 and all(isinstance(e, ast.Name) for e in lp[-1].target.elts)):
+                    continue
+                nm, vl = (e.id for e in lp[-1].target.elts)  # type: ignore[union-attr]
+                head = next((x for x in fl.stmts(ast.For) if x.node is lp[-1]), None)
+                base = set(head.fact_texts) if head is not None else set()
+                filters.append((nm, vl, [fa.expr for fa in a_.facts if fa.kind == "atom" and fa.text not in base]))
+            if len(filters) < len(lists) or not lists:
+                raise AnalysisError(f"{s.where()}: no comprehension over op.iter_params() feeds the replacement")
+        for nm, vl, conds in filters:
             good = False
             prev_ok = False
             for c in conds:
